@@ -149,6 +149,7 @@ Seeds ==
                                    Row(<<114, ZERO + r>>, [c \in 1..Pow(4, h) |-> R4[(((c - 1) \div Pow(4, h - r)) % 4) + 1]])])
              other == NewArgs("align", NUCLEOTIDS, 0, <<>>)
          IN {<<cols(3, al), other>> : al \in {NUCLEOTIDS, AMINOACIDS}}
+            \* (cols(3, AMINOACIDS) is a protein alignment written with letters that are nucleotide codes too: A C - N)
             \cup {<<x, other>> : x \in Aligns(<<<<114, 49>>, <<114, 50>>>>, {65, 45}, 2, NUCLEOTIDS, 0)}
             \cup {<<NewArgs("align", NUCLEOTIDS, 0, <<Row(<<114, 49>>, <<65, 46, 45>>), Row(<<114, 50>>, <<46, 46, 67>>)>>), other>>}
             \cup (IF Scope = "full" THEN {<<x, other>> : x \in Aligns(<<<<114, 49>>, <<114, 50>>, <<114, 51>>>>, {65, 67, 45}, 1, NUCLEOTIDS, 0)} ELSE {})
@@ -315,14 +316,14 @@ InstC14(h) ==
   \cup (IF Len(o.rows) > 0 THEN {Inst("NumMutationsUnique", r, [prof |-> p]) : p \in {0, 1} \cup (IF Width(h[2]) = W THEN {2} ELSE {})} ELSE {})
   \cup {Inst("NumMutRef", r, [i |-> i, refi |-> j]) : i \in 0..(Len(o.rows) - 1), j \in 0..(Len(o.rows) - 1)}
   \cup {Inst("ListMutRef", r, [i |-> i, refi |-> j]) : i \in 0..(Len(o.rows) - 1), j \in 0..(Len(o.rows) - 1)}
-Repls == {<<>>, sAMBIG, sGAP, sMAJ, <<90>>, <<122, 122>>}
+Repls == {<<>>, sAMBIG, sGAP, sMAJ, <<90>>, <<122, 122>>, <<110>>}       \* n: a replacement character is written as given
 InstC15(h) ==
   LET r == 1  o == h[1]  W == Width(o)
       big == W > 8
       refs == IF big THEN {<<>>, <<114, 49>>, <<114, 50>>, nZ} ELSE {<<>>, <<114, 50>>}
       starts == IF big THEN {-1, 0, 1, W - 1, W, W + 1} ELSE {-1, 0, 1, W, W + 1}
       lens == IF big THEN {0, 1, 2, W, W + 2} ELSE {0, 1, W + 2}
-      repls == IF big THEN Repls ELSE {<<>>, sMAJ, <<45>>} IN
+      repls == IF big THEN Repls ELSE {<<>>, sMAJ, <<45>>, <<120>>} IN
   {Inst("Mask", r, [ref |-> rf, start |-> s, len |-> n, repl |-> rp, nogap |-> ng, noref |-> nr]) :
       rf \in refs, s \in starts, n \in lens, rp \in repls, ng \in Bools, nr \in Bools}
   \* lengths of 2^30 + k stand for the largest integers (MaxInt64 - k) in the call: start + length must not wrap around
